@@ -68,6 +68,8 @@ class C11(Prop):
         from harness.pyset2lean import translate
         out = dict(S.extract_tables(repo))
         out['TTV/Generated/C11.lean'] = translate(repo)['TTV/Generated/C11.lean']   # StreamTagger's set arithmetic, translated from the source
+        from harness import pystream
+        out.update(pystream.generate_deco(repo))        # the other decorators' decision logic, translated from the source
         return out
 
     # ----- implementation side
